@@ -222,7 +222,7 @@ theorem plain_of_cur {it : It} (ha : ArgvPlain it.argv) (hs : ',' ∉ it.cur.str
 
 theorem dash_zero {it : It} (h : it.charPos = 0) : it.Dash := fun hne => absurd h hne
 
-theorem clearRem_ok {r : Res It} {it' : It} (h : clearRem r = .ok it') :
+theorem clearRem_ok_inv {r : Res It} {it' : It} (h : clearRem r = .ok it') :
     ∃ it'', r = .ok it'' ∧ it' = { it'' with remAsValue := false } := by
   cases r with
   | ok x => simp only [clearRem, Res.ok.injEq] at h; exact ⟨x, rfl, h.symm⟩
@@ -267,7 +267,7 @@ theorem next_plain (fuel : Nat) :
     · intro it it' ha hd h
       unfold It.next at h
       dsimp only at h
-      obtain ⟨x, hx, rfl⟩ := clearRem_ok h
+      obtain ⟨x, hx, rfl⟩ := clearRem_ok_inv h
       suffices hx' : x.Plain from ⟨hx'.argv, hx'.str, hx'.ctrl, hx'.dash⟩
       split at hx
       · exact mkEnd_plain ha hx
@@ -401,7 +401,7 @@ theorem next_plain (fuel : Nat) :
             subst hj'
             exact getChar_notDash hw' hc hcd'
 
-theorem step_plain {it it' : It} (hp : it.Plain) (h : it.step = .ok it') : it'.Plain :=
+theorem plain_step {it it' : It} (hp : it.Plain) (h : it.step = .ok it') : it'.Plain :=
   (next_plain 4).1 it it' hp.argv hp.dash h
 
 theorem begin_plain {argv : List Word} (ha : ArgvPlain argv) {ai : It} (h : It.begin argv = .ok ai) : ai.Plain := by
@@ -433,8 +433,8 @@ theorem valueFor_plain {d : ArgDef} {ai : It} (hp : ai.Plain) {x : Word × It} (
     obtain ⟨ait2, hs, h⟩ := h
     have h2 : ait2.Plain := by
       split at hs
-      · exact step_plain (it := { ai with remAsValue := true }) ⟨hp.argv, hp.str, hp.ctrl, hp.dash⟩ hs
-      · exact step_plain hp hs
+      · exact plain_step (it := { ai with remAsValue := true }) ⟨hp.argv, hp.str, hp.ctrl, hp.dash⟩ hs
+      · exact plain_step hp hs
     split at h
     · split at h
       · cases h; exact hp
